@@ -243,6 +243,15 @@ def configs(tier, seed):
         for F in F_list:
             out.append(("A", dict(src="generic", max_states=2000 if tier == "quick" else 6000,
                                   cfg=dict(kind=kind, mode="min", seed=seed, R=4, W=2, T=3, F=F, kw=kw))))
+    # GP searchers past their random phase (fitted surrogate, tiny optimiser settings) on a space of 4 configurations, with and
+    # without allow_duplicates: the configuration of a trial that failed *after* it had reported stays excluded
+    for kind in ("hb-stopping", "hb-promotion"):
+        for dup in (True, False):
+            so = {"debug_log": False, "num_init_random": 1, "opt_nstarts": 1, "opt_maxiter": 3, "num_init_candidates": 6,
+                  "allow_duplicates": dup}
+            out.append(("A", dict(src="generic", max_states=250 if tier == "quick" else 1200,
+                                  cfg=dict(kind=kind, mode="min", seed=seed, R=3, W=2, T=5, F=1,
+                                           kw=dict(searcher="bayesopt", search_options=so, int_space=4, points_to_evaluate=[])))))
     # Engine B
     bk = ["fifo-random", "hb-stopping", "hb-promotion", "shb", "dehb", "pbt", "median", "hb-pasha"]
     for ki, kind in enumerate(bk):
